@@ -273,7 +273,45 @@ func selPath(e ast.Expr, recv string) ([]string, bool) {
 	}
 }
 
+// curStruct: the struct whose hook is being translated; selector paths are made explicit about embedded
+// fields (fc.TLSConfig -> FilterChainConfig.TLSConfig) with reflect's FieldByName index sequence.
+var curStruct reflect.Type
+
+func qualify(t reflect.Type, p []string) []string {
+	var out []string
+	for _, name := range p {
+		for t != nil && t.Kind() == reflect.Ptr {
+			t = t.Elem()
+		}
+		if t == nil || t.Kind() != reflect.Struct {
+			out = append(out, name)
+			t = nil
+			continue
+		}
+		sf, ok := t.FieldByName(name)
+		if !ok {
+			out = append(out, name)
+			t = nil
+			continue
+		}
+		cur := t
+		for _, ix := range sf.Index {
+			for cur.Kind() == reflect.Ptr {
+				cur = cur.Elem()
+			}
+			f := cur.Field(ix)
+			out = append(out, f.Name)
+			cur = f.Type
+		}
+		t = sf.Type
+	}
+	return out
+}
+
 func coqPath(p []string) string {
+	if curStruct != nil {
+		p = qualify(curStruct, p)
+	}
 	qs := make([]string, len(p))
 	for i, s := range p {
 		qs[i] = q(s)
@@ -306,20 +344,25 @@ func hexpr(e ast.Expr, recv string) (string, bool) {
 	return "", false
 }
 
-func hassign(s ast.Stmt, recv string) (string, bool) {
+func hassign2(s ast.Stmt, recv string) (string, string, bool) {
 	as, ok := s.(*ast.AssignStmt)
 	if !ok || as.Tok != token.ASSIGN || len(as.Lhs) != 1 || len(as.Rhs) != 1 {
-		return "", false
+		return "", "", false
 	}
 	lp, ok := selPath(as.Lhs[0], recv)
 	if !ok || len(lp) == 0 {
-		return "", false
+		return "", "", false
 	}
 	r, ok := hexpr(as.Rhs[0], recv)
 	if !ok {
-		return "", false
+		return "", "", false
 	}
-	return "(" + coqPath(lp) + ", " + r + ")", true
+	return coqPath(lp), r, true
+}
+
+func hassign(s ast.Stmt, recv string) (string, bool) {
+	l, r, ok := hassign2(s, recv)
+	return "(" + l + ", " + r + ")", ok
 }
 
 func hassigns(l []ast.Stmt, recv string) (string, bool) {
@@ -350,8 +393,8 @@ func marshalTarget(s ast.Stmt, recv string) ([]string, bool) {
 func hstmts(l []ast.Stmt, recv string) (string, bool) {
 	var out []string
 	for _, s := range l {
-		if a, ok := hassign(s, recv); ok {
-			out = append(out, "HAssign "+strings.TrimSuffix(strings.TrimPrefix(strings.Replace(a, ", ", " ", 1), "("), ")"))
+		if l, r, ok := hassign2(s, recv); ok {
+			out = append(out, "HAssign "+l+" "+r)
 			continue
 		}
 		is, ok := s.(*ast.IfStmt)
@@ -509,12 +552,59 @@ type scanField struct {
 	Refs     []string // "pkgdir#Type" candidates mentioned by the field's type expression
 }
 
+type reg struct {
+	Name string
+	Fn   ast.Expr // the registered parser / factory (nil if not given positionally)
+}
+
 type pkgScan struct {
 	Dir      string
 	Name     string
 	Types    map[string]*scanType
-	ExtRegs  []string
-	FiltRegs []string
+	Funcs    map[string]*ast.FuncDecl
+	ExtRegs  []reg
+	FiltRegs []reg
+}
+
+// mentioned: the TLS-bearing struct types of the package named in the body of the registered function
+// (following calls to functions of the same package, depth <= 3).  resolved=false if the function is not
+// a literal or a function of the package (then the caller attributes every bearing type of the package).
+func (ps *pkgScan) mentioned(fn ast.Expr, isBearing func(string) bool) (out []string, resolved bool) {
+	var body ast.Node
+	switch x := fn.(type) {
+	case *ast.FuncLit:
+		body = x.Body
+	case *ast.Ident:
+		if fd := ps.Funcs[x.Name]; fd != nil && fd.Body != nil {
+			body = fd.Body
+		}
+	}
+	if body == nil {
+		return nil, false
+	}
+	seen := map[string]bool{}
+	seenFn := map[string]bool{}
+	var walk func(n ast.Node, depth int)
+	walk = func(n ast.Node, depth int) {
+		ast.Inspect(n, func(m ast.Node) bool {
+			id, ok := m.(*ast.Ident)
+			if !ok {
+				return true
+			}
+			if isBearing(id.Name) && !seen[id.Name] {
+				seen[id.Name] = true
+				out = append(out, id.Name)
+			}
+			if fd := ps.Funcs[id.Name]; fd != nil && fd.Body != nil && !seenFn[id.Name] && depth < 3 {
+				seenFn[id.Name] = true
+				walk(fd.Body, depth+1)
+			}
+			return true
+		})
+	}
+	walk(body, 0)
+	sort.Strings(out)
+	return out, true
 }
 
 const v2Path = "mosn.io/mosn/pkg/config/v2"
@@ -547,7 +637,7 @@ func scanRepo(repo string) (map[string]*pkgScan, error) {
 			dir, _ := filepath.Rel(repo, filepath.Dir(p))
 			ps := pkgs[dir]
 			if ps == nil {
-				ps = &pkgScan{Dir: dir, Name: f.Name.Name, Types: map[string]*scanType{}}
+				ps = &pkgScan{Dir: dir, Name: f.Name.Name, Types: map[string]*scanType{}, Funcs: map[string]*ast.FuncDecl{}}
 				pkgs[dir] = ps
 			}
 			imports := map[string]string{} // alias -> repo-relative dir
@@ -608,6 +698,10 @@ func scanRepo(repo string) (map[string]*pkgScan, error) {
 			}
 			ast.Inspect(f, func(n ast.Node) bool {
 				switch x := n.(type) {
+				case *ast.FuncDecl:
+					if x.Recv == nil {
+						ps.Funcs[x.Name.Name] = x
+					}
 				case *ast.TypeSpec:
 					if st, ok := x.Type.(*ast.StructType); ok {
 						addStruct(x.Name.Name, st)
@@ -621,11 +715,15 @@ func scanRepo(repo string) (map[string]*pkgScan, error) {
 							arg0 = s
 						}
 					}
+					var fnArg ast.Expr
+					if len(x.Args) > 1 {
+						fnArg = x.Args[1]
+					}
 					switch {
 					case strings.HasSuffix(fn, "RegisterParseExtendConfig"):
-						ps.ExtRegs = append(ps.ExtRegs, arg0)
+						ps.ExtRegs = append(ps.ExtRegs, reg{arg0, fnArg})
 					case fn == "api.RegisterNetwork" || fn == "api.RegisterStream" || fn == "api.RegisterListener":
-						ps.FiltRegs = append(ps.FiltRegs, arg0)
+						ps.FiltRegs = append(ps.FiltRegs, reg{arg0, fnArg})
 					}
 				}
 				return true
@@ -789,15 +887,25 @@ func genCfgTypes(repo string) (string, error) {
 		if _, known := knownExtTypes[full]; !known {
 			unknown = append(unknown, [2]string{full, dir})
 		}
+		isB := func(n string) bool { return bearing[dir+"#"+n] && ps.Types[n] != nil && ps.Types[n].HasJSONTag }
 		att := false
-		for _, e := range ps.ExtRegs {
-			extTLS = append(extTLS, [2]string{e, full})
-			att = true
+		attribute := func(regs []reg, out *[][2]string) {
+			for _, e := range regs {
+				names, resolved := ps.mentioned(e.Fn, isB)
+				hit := !resolved
+				for _, n := range names {
+					if n == tn {
+						hit = true
+					}
+				}
+				if hit {
+					*out = append(*out, [2]string{e.Name, full})
+					att = true
+				}
+			}
 		}
-		for _, e := range ps.FiltRegs {
-			filtTLS = append(filtTLS, [2]string{e, full})
-			att = true
-		}
+		attribute(ps.ExtRegs, &extTLS)
+		attribute(ps.FiltRegs, &filtTLS)
 		if !att {
 			unattributed = append(unattributed, [2]string{full, dir})
 		}
@@ -807,6 +915,7 @@ func genCfgTypes(repo string) (string, error) {
 	}
 	for _, s := range g.structs {
 		s.Hook, s.Unhook = "HkNone", "UkNone"
+		curStruct = s.T
 		if s.HasM && inMosn(s.T) {
 			s.Hook = g.marshalHook(s)
 		} else if s.HasM {
@@ -817,6 +926,7 @@ func genCfgTypes(repo string) (string, error) {
 		} else if s.HasU {
 			s.Unhook = "UkCustom"
 		}
+		curStruct = nil
 	}
 
 	var b strings.Builder
